@@ -9,6 +9,7 @@
 -/
 import Nq.Lemmas.SchedSqrt
 import Nq.Lemmas.SchedDaemon
+import Nq.Lemmas.SchedHist
 
 namespace Nq.Props.C15
 open Nq Nq.Sched Nq.Spec.Sched Nq.Lemmas.Sched
@@ -218,6 +219,102 @@ theorem C15_alrm (recent : Int) (q : PQ) :
     simp at this; exact hne (by simp [this])
   obtain ⟨e, he⟩ := List.exists_mem_of_ne_nil _ hl
   exact passStart_prompt recent _ (pqrun_heap recent q) e he (Int.le_of_eq (hall e he))
+
+/-! ### monotonicity -/
+
+/-- `squareroot` is non-negative and monotone on ALL of `Int` (exact below 2³², saturated above, 0 below 0). -/
+theorem C15_sqrt_mono (x y : Int) (h : x ≤ y) : 0 ≤ squareroot x ∧ squareroot x ≤ squareroot y := by
+  have nonneg : ∀ z : Int, 0 ≤ squareroot z := by
+    intro z
+    by_cases h0 : z < 0
+    · rw [C15_sqrt_negative z h0]
+    · by_cases h1 : z < 4294967296
+      · exact (C15_sqrt z (by omega) h1).1
+      · rw [C15_sqrt_saturated z (by omega)]; decide
+  refine ⟨nonneg x, ?_⟩
+  by_cases hx0 : x < 0
+  · rw [C15_sqrt_negative x hx0]; exact nonneg y
+  · by_cases hx1 : x < 4294967296
+    · have hsx := C15_sqrt x (by omega) hx1
+      by_cases hy1 : y < 4294967296
+      · exact isSqrt_mono hsx (C15_sqrt y (by omega) hy1) h
+      · rw [C15_sqrt_saturated y (by omega)]
+        obtain ⟨r0, r1, _⟩ := hsx
+        generalize squareroot x = r at *
+        by_contra hc
+        have : 65536 ≤ r := by omega
+        nlinarith
+    · rw [C15_sqrt_saturated x (by omega), C15_sqrt_saturated y (by omega)]
+
+/-- a later attempt never gets an earlier retry time (for every pair of times, every birth) -/
+theorem C15_retry_mono (recent recent' birth : Int) (c : Chan) (h : recent ≤ recent') :
+    nextretry recent birth c ≤ nextretry recent' birth c := by
+  unfold nextretry
+  rw [chanskip_eq]
+  have hs := skip_pos c
+  by_cases hb : birth > recent
+  · rw [if_pos hb]
+    by_cases hb' : birth > recent'
+    · rw [if_pos hb']
+    · rw [if_neg hb']
+      have := (C15_sqrt_mono (recent' - birth) (recent' - birth) (Int.le_refl _)).1
+      generalize squareroot (recent' - birth) = a at *
+      nlinarith
+  · rw [if_neg hb, if_neg (by omega)]
+    obtain ⟨h0, h1⟩ := C15_sqrt_mono (recent - birth) (recent' - birth) (by omega)
+    generalize squareroot (recent - birth) = a at *
+    generalize squareroot (recent' - birth) = a' at *
+    nlinarith
+
+/-! ### history level: every event history of the daemon model (`Nq.SchedHist.step`) -/
+
+open Nq.SchedHist Nq.Spec.SchedHist Nq.Lemmas.SchedHist
+
+theorem started_some {s : HSt} {c : Chan} {pe : Elt} (h : started s c = some pe) :
+    ∃ q', passStart s.clock true (s.q c) = some (pe, q') := by
+  unfold started at h
+  cases hp : passStart s.clock true (s.q c) with
+  | none => rw [hp] at h; cases h
+  | some r => rw [hp] at h; exact ⟨r.2, by cases h; rfl⟩
+
+/-- **No early retry, over all quiet histories.**  A pass on channel `c` at time `t = s.clock` starts message
+`pe.id` (born at `m.birth`) and leaves a recipient to do (a temporary failure, or a mangled report).  Then in
+EVERY continuation made of clock changes (forwards or backwards), wake-up computations, further passes on either
+channel with arbitrary reports and arbitrary injected system failures (open/getinfo "trouble", unlink failure,
+stat failure), and clean restarts (TERM `pqfinish`, new process `pqstart`) — of any length —, whenever
+`pass_dochan(c)` starts that message again, the entry it starts carries a due time `≥ birth + (⌊√(t-birth)⌋+skip)²`,
+and the clock has reached it; that back-off time was strictly in the future at `t`.  (Not covered, on purpose:
+ALRM — see `C15_hist_alrm` —, files changed from outside, crash restarts.) -/
+theorem C15_hist_backoff (s : HSt) (hwf : WF s) (c : Chan) (letters : List Byte) (f : Fault) (pe : Elt) (m : Msg)
+    (hstart : started s c = some pe) (hm : s.find pe.id = some m) (hf : f.trouble = false)
+    (hage : s.clock - m.birth < 4294967296)
+    (hleft : ∃ m2 recs2, (step s (.pass c letters f)).1.find pe.id = some m2 ∧ m2.recs c = some recs2 ∧ true ∈ recs2)
+    (mid : List QStep) (pe2 : Elt)
+    (hagain : started (runQ (step s (.pass c letters f)).1 mid) c = some pe2) (hid : pe2.id = pe.id) :
+    s.clock < nextretry s.clock m.birth c ∧ (m.birth ≤ s.clock → IsRetry s.clock m.birth c (nextretry s.clock m.birth c)) ∧
+    nextretry s.clock m.birth c ≤ pe2.dt ∧ pe2.dt ≤ (runQ (step s (.pass c letters f)).1 mid).clock := by
+  obtain ⟨q', hp⟩ := started_some hstart
+  obtain ⟨hfut, hform⟩ := C15_future s.clock m.birth c hage
+  refine ⟨hfut, hform, ?_⟩
+  have hmono : ∀ t', nextretry s.clock m.birth c ≤ t' → nextretry s.clock m.birth c ≤ nextretry t' m.birth c :=
+    fun t' ht => C15_retry_mono s.clock t' m.birth c (by omega)
+  have hsf : 0 ≤ SLEEP_SYSFAIL := Int.natCast_nonneg _
+  obtain ⟨m2, recs2, hm2, hr2, ht2⟩ := hleft
+  have ho := owed_init hwf letters hp hm hf (by
+    intro m3 hm3 recs3 hr3
+    have h1 : m3 = m2 := by
+      have : some m3 = some m2 := by rw [← hm3]; exact hm2
+      exact Option.some.inj this
+    subst h1
+    rw [hr2] at hr3; cases hr3; exact ht2)
+  obtain ⟨hwf3, ho3⟩ := owed_runQ hmono hsf mid _ (wf_passSt hwf c letters f) ho
+  obtain ⟨q2, hp2⟩ := started_some hagain
+  obtain ⟨hdue2, _, _, _, hmem2, _, _, m3, recs3, hm3, hr3⟩ := start_facts hwf3 hp2
+  obtain ⟨_, h2⟩ := ho3 m3 (hid ▸ hm3)
+  obtain ⟨e, he, hei, hre⟩ := h2 (by rw [hr3]; rfl)
+  have : e = pe2 := eq_of_nodup_map (fun x : Elt => x.id) _ (by have := hwf3.nodupQ c; unfold ids at this; exact this) e he pe2 hmem2 (by rw [hei, hid])
+  subst this
+  exact ⟨hre, hdue2⟩
 
 /-! ### Non-vacuity: concrete inputs meeting the hypotheses -/
 
